@@ -252,7 +252,7 @@ impl PoolGen {
             7 => Some(Decimal::zero()),
             8 => Some(Decimal::percent(self.rng.gen_range(1..50))),
             9 => Some(Decimal::from_ratio(self.rng.gen_range(1u64..10_000), 100_000u64)),
-            10 => Some(Decimal::percent(self.rng.gen_range(51..100))),
+            10 => Some(Decimal::percent(self.rng.gen_range(51..=100))),
             _ => Some(Decimal::percent(self.rng.gen_range(101..300))),
         }
     }
@@ -465,9 +465,10 @@ impl PoolGen {
         if self.rng.gen_range(0..30) == 0 {
             funds.push(coin(5, "uom")); // possibly foreign coin
         }
-        let liq = match self.rng.gen_range(0..5) {
+        let liq = match self.rng.gen_range(0..6) {
             0 => self.slip(),
             1 => Some(Decimal::percent(self.rng.gen_range(1..100))),
+            2 => Some(Decimal::one()),
             _ => None,
         };
         let (unlock, lock_id) = self.lock_opts(w, &sender);
